@@ -15,7 +15,46 @@ from mbt.extract import xsd_model as XM
 OPS = (("Insert", "insert"), ("Add", "add"), ("PublicAdd", "public_add"), ("GetOrAdd", "get_or_add"),
        ("RemoveAll", "remove"), ("ChangeTo", "change_to"))
 METHOD = {"Insert": "_insert_%s", "Add": "_add_%s", "PublicAdd": "add_%s", "GetOrAdd": "get_or_add_%s",
-          "RemoveAll": "_remove_%s", "ChangeTo": "get_or_change_to_%s", "Hand": "%s"}
+          "RemoveAll": "_remove_%s", "ChangeTo": "get_or_change_to_%s", "Hand": "%s", "HandGetOrAdd": "%s"}
+
+# hand-written get-or-add methods keyed by an index child: class -> (method, child tag); the keys explored
+KEYED = {"CT_SeriesComposite": ("get_or_add_dPt_for_point", "c:dPt"), "CT_DLbls": ("get_or_add_dLbl_for_point", "c:dLbl")}
+KEYS = (0, 1, 2)
+KEYED_BASES = {v[1] for v in KEYED.values()}
+
+
+def keyed_decls(tag: str, cls: str, members: list[str], uri2pfx: dict, names: dict) -> list[dict]:
+    """One declaration per key: child "<base>#<k>", successors read off the behaviour of the method (one sibling at a time)."""
+    if cls not in KEYED:
+        return []
+    meth, base = KEYED[cls]
+    out = []
+    for k in KEYS:
+        child = "%s#%d" % (base, k)
+        if child not in members:       # this schema type of the element has no such child (c:ser as CT_SurfaceSer)
+            continue
+        try:
+            parent = _mk(tag, uri2pfx)
+            getattr(parent, meth)(k)
+            if _project(parent, uri2pfx, True) != [child]:
+                continue
+        except Exception:
+            continue
+        succ = []
+        for sib in members:
+            if sib == child:
+                continue
+            try:
+                parent = _mk(tag, uri2pfx)
+                parent.append(_mk(sib, uri2pfx, True))
+                getattr(parent, meth)(k)
+                if _project(parent, uri2pfx, True) == [child, sib]:
+                    succ.append(sib)
+            except Exception:
+                continue
+        out.append({"child": child, "kind": "ZeroOrOne", "succ": succ, "group": [], "ops": ["HandGetOrAdd"], "prop": "%s#%d" % (meth, k),
+                    "reachable": True, "callers": {meth: names.get(meth, [])[:4]}, "remove_callers": {}, "custom": ["hand"]})
+    return out
 
 
 def _hand_args() -> dict:
@@ -97,7 +136,7 @@ def build_cases(repo: str | None = None, full_pairs: bool = False) -> dict:
     cases, not_applicable, no_model, unsupported = [], [], [], []
     hand = _hand_args()
     for e in ex["elements"]:
-        if not e["decls"] and e["cls"] not in hand:
+        if not e["decls"] and e["cls"] not in hand and e["cls"] not in KEYED:
             continue
         cms = xm.content_models(e["tag"])
         if not cms:
@@ -109,8 +148,13 @@ def build_cases(repo: str | None = None, full_pairs: bool = False) -> dict:
                 # content-model shapes the context builder does not construct permitted contexts for (none on the pinned tree)
                 unsupported.append("%s as %s (%s)" % (e["tag"], cm["type"], ",".join(cm["features"])))
                 continue
+            slots_cm = cm["slots"]
+            if e["cls"] in KEYED:      # the keyed children are members of their base tag's slot
+                base = KEYED[e["cls"]][1]
+                slots_cm = [dict(s_, members=list(s_["members"]) + ["%s#%d" % (base, k) for k in KEYS]) if base in s_["members"] else s_
+                            for s_ in cm["slots"]]
             rank = {}
-            for i, s in enumerate(cm["slots"], 1):
+            for i, s in enumerate(slots_cm, 1):
                 for t in s["members"]:
                     rank[t] = i
             decls = []
@@ -128,13 +172,14 @@ def build_cases(repo: str | None = None, full_pairs: bool = False) -> dict:
                               "callers": r["callers"], "remove_callers": r["remove_callers"],
                               "custom": sorted(role for role, m in d["methods"].items() if not m["generated"] and role != "new")})
             decls += hand_decls(e["tag"], e["cls"], list(rank), dict(xm.uri2pfx), names)
+            decls += keyed_decls(e["tag"], e["cls"], list(rank), dict(xm.uri2pfx), names)
             if not decls:
                 continue
             active = set()
             for d in decls:
                 active |= {d["child"]} | set(d["succ"]) | set(d["group"])
             cases.append({"id": len(cases) + 1, "tag": e["tag"], "cls": e["cls"], "xtype": cm["type"], "features": cm["features"],
-                          "slots": [_slot_json(s, active, full_pairs) for s in cm["slots"]], "rank": rank, "decls": decls})
+                          "slots": [_slot_json(s, active, full_pairs) for s in slots_cm], "rank": rank, "decls": decls})
         for d in e["decls"]:
             if d["prop"] not in applied:
                 not_applicable.append("%s/%s" % (e["tag"], d["child"]))
@@ -158,11 +203,18 @@ def tlc_constants(built: dict) -> dict:
 URI2PFX: dict = {}   # set by the check before the fan-out (fork inherits it)
 
 
-def _mk(tag: str, uri2pfx: dict):
+def _mk(tag: str, uri2pfx: dict, as_child: bool = False):
     from pptx.oxml import oxml_parser
     from pptx.oxml.ns import _nsmap
     from pptx.oxml.xmlchemy import OxmlElement
 
+    if as_child and tag in KEYED_BASES:  # an element that always has a key (c:idx is required): the plain tag stands for "some other key"
+        tag += "#9"
+    if "#" in tag:          # a keyed child: the element with a c:idx child of that value
+        from pptx.oxml import parse_xml
+        base, k = tag.split("#")
+        C_ = "http://schemas.openxmlformats.org/drawingml/2006/chart"
+        return parse_xml('<%s xmlns:c="%s"><c:idx val="%s"/></%s>' % (base, C_, k, base))
     p, local = tag.split(":", 1)
     if p in _nsmap:
         return OxmlElement(tag)
@@ -170,7 +222,8 @@ def _mk(tag: str, uri2pfx: dict):
     return oxml_parser.makeelement("{%s}%s" % (uri, local), nsmap={p: uri})
 
 
-def _project(parent, uri2pfx: dict) -> list[str]:
+def _project(parent, uri2pfx: dict, keyed: bool = False, only=None) -> list[str]:
+    """keyed: children with a c:idx of one of KEYS are named "<tag>#<k>" (only = the elements this applies to; None = all)."""
     out = []
     for ch in parent:
         if not isinstance(ch.tag, str):
@@ -180,6 +233,10 @@ def _project(parent, uri2pfx: dict) -> list[str]:
             out.append("%s:%s" % (uri2pfx.get(uri, "?" + uri), local))
         else:
             out.append(ch.tag)
+        if keyed:
+            idx = ch.find("{http://schemas.openxmlformats.org/drawingml/2006/chart}idx")
+            if idx is not None and idx.get("val") in [str(k) for k in KEYS] and (only is None or any(ch is o for o in only)):
+                out[-1] += "#" + idx.get("val")
     return out
 
 
@@ -190,7 +247,7 @@ def replay_one(job) -> dict:
     uri2pfx = URI2PFX
     parent = _mk(tag, uri2pfx)
     for k in kids:
-        parent.append(_mk(k, uri2pfx))
+        parent.append(_mk(k, uri2pfx, True))
     if deep:
         # "whatever siblings exist": the siblings have content of their own - descendants that carry the same names as the children
         # of this parent (a shape's p:nvPr/p:extLst beside the shape tree's p:extLst, a group in a group): only CHILDREN count
@@ -200,10 +257,12 @@ def replay_one(job) -> dict:
             sib.append(holder)
             for k in inner:
                 holder.append(_mk(k, uri2pfx))
-    before = _project(parent, uri2pfx)
+    keyed = "#" in child or any("#" in k for k in kids)
+    initial = list(parent)
+    before = _project(parent, uri2pfx, keyed)
     if before != list(kids):
         return {"t": before, "out": "raised:ProjectionMismatch"}
-    name = METHOD[op] % prop
+    name = (METHOD[op] % prop).split("#")[0]
     try:
         m = getattr(parent, name)
         if op == "Insert":
@@ -212,12 +271,15 @@ def replay_one(job) -> dict:
             m(elm)
         elif op == "Hand":
             m(*next(v[prop] for v in _hand_args().values() if prop in v))
+        elif op == "HandGetOrAdd":
+            m(int(prop.split("#")[1]))
         else:
             m()
         out = "ok"
     except Exception as exc:  # recorded, judged by the check (signature mismatch = not callable without arguments)
         out = "raised:%s: %s" % (type(exc).__name__, str(exc)[:120])
-    return {"t": _project(parent, uri2pfx), "out": out}
+    # a child that a GENERATED method created in a keyed context is the declaration's plain child, whatever index it was born with
+    return {"t": _project(parent, uri2pfx, keyed, None if op == "HandGetOrAdd" else initial), "out": out}
 
 
 def replay_many(jobs: list) -> list[dict]:
